@@ -510,6 +510,16 @@ impl DdlExecutor {
                 self.execute_alter_table(&instr)
             }
             BoundStatement::DropTable(drop) => {
+                // The binder found no such table (it lets IF EXISTS through): there is no object to act on.
+                // Without this the instruction below carries object id 0, i.e. whatever was created first.
+                if drop.table_id.is_none() {
+                    if drop.if_exists {
+                        return Ok(DdlResult::NoOp);
+                    }
+                    return Err(RuntimeError::Schema(SchemaError::NotFound(
+                        DatabaseItem::Table(drop.table_name.clone()),
+                    )));
+                }
                 let instr = DropTableInstr::from(drop);
                 self.execute_drop_table(&instr)
             }
